@@ -24,7 +24,7 @@ CLAIMED = {
             "as witness; every path's model is re-run on the plain decoder (same verdict) and every ConformanceError is pushed through the "
             "validator's reporting code.",
             "Trusted: symx engine, z3 5.1, SymFile, resource-bound wrapper (paths declaring sizes above the bounds are counted out_of_scope), "
-            "relaxed value tables for levels 1/64/66. Bound: symbolic regions of 2-18 bytes on 15 (quick) / 31 (thorough) fixtures.",
+            "relaxed value tables for levels 1/64/66. Bound: symbolic regions of 2-18 bytes on 15 (quick) / 19 (thorough) fixtures.",
             "symbolic execution of the real decoder (symx) over symbolic byte regions, z3 path feasibility, exhaustive within region", "3 C02"),
     "C01": (MC,
             "Streams are assembled from data-unit blocks cut from committed fixtures; block orders are enumerated (curated interaction "
